@@ -14,7 +14,12 @@ res=/tmp/seed-$pid-$tag-eval.txt; : > $res
 cp "$demo" $W/$demopath
 ( cd $W && go test ${DEMOFLAGS:-} -vet=off -count=1 -run "$demorun" ./$(dirname $demopath)/ ) > /tmp/seed-demo-clean.txt 2>&1; echo "demo on clean tree: exit $?" | tee -a $res
 rm $W/$demopath
-( cd $W && git apply $out/patch.diff ) || { echo "PATCH DOES NOT APPLY" | tee -a $res; exit 1; }
+if ! ( cd $W && git apply $out/patch.diff 2>/dev/null ); then
+  # /repo has moved on since the change was written (fix: commits): carry it over with a three-way merge
+  ( cd $W && git apply --3way $out/patch.diff >/dev/null 2>&1 && git reset -q ) || { echo "PATCH DOES NOT APPLY (not even three-way)" | tee -a $res; exit 1; }
+  ( cd $W && git diff ) > $out/patch.rebased.diff
+  echo "patch carried over to the current /repo with a three-way merge (patch.rebased.diff)" | tee -a $res
+fi
 ( cd $W && go build ./... ) && echo "builds: yes" | tee -a $res
 ( cd $W && go test -vet=off -count=1 ./... 2>&1 | grep -v "no test files" | grep -v "^ok" ) > /tmp/seed-suite.txt; if [ -s /tmp/seed-suite.txt ]; then echo "SUITE OUTPUT:"; cat /tmp/seed-suite.txt; ( cd $W && go test -vet=off -count=1 ./... 2>&1 | grep -v "no test files" | grep -v "^ok" ) | tee -a $res; else echo "pinned suite with the change: passes" | tee -a $res; fi
 cp "$demo" $W/$demopath
